@@ -714,6 +714,19 @@ def r28_zip_map_collect(toks, log):
                 toks[i:e + 1] = new
                 log.append(("R28", ln, "%s.into_iter().zip(%s).map(..).collect() -> loop with push" % (A, B)))
                 i += len(new); continue
+            # let NAME = X . into_iter ( ) . map ( | V | EXPR ) . collect ( ) ;      (X: a place expression)
+            if len(txt) > 14 and txt[2] == "=" and txt[-6:] == [")", ".", "collect", "(", ")", ";"] and "zip" not in txt:
+                k = None
+                for q in range(3, len(txt) - 8):
+                    if txt[q:q + 8] == [".", "into_iter", "(", ")", ".", "map", "(", "|"] and txt[q + 9] == "|": k = q; break
+                if k is not None and all(x not in ("(", "{") for x in txt[3:k]):
+                    name, X, V = txt[1], " ".join(txt[3:k]), txt[k + 8]
+                    expr = " ".join(txt[k + 10:-6])
+                    ln = t.line
+                    new = toks_of("let vx_src = %s ; let mut %s = Vec :: new ( ) ; for vx_z in 0 .. vx_src . len ( ) { let %s = vx_src [ vx_z ] ; %s . push ( %s ) ; }" % (X, name, V, name, expr), ln)
+                    toks[i:e + 1] = new
+                    log.append(("R28", ln, "%s.into_iter().map(..).collect() -> loop with push" % X))
+                    i += len(new); continue
         if t.kind == "id" and t.text == "for" and i + 1 < len(toks) and P(toks[i + 1], "("):
             pc = match_close(toks, i + 1)
             pat = [u.text for u in toks[i + 2:pc]]
@@ -764,6 +777,26 @@ def r29_all_and_ref_for(toks, log):
                 toks[i:e + 1] = new
                 log.append(("R29", ln, "%s.iter().all(..) -> loop" % X))
                 i += len(new); continue
+        # for V in & mut X { ... * V ... }   (X: a place expression without braces)
+        if t.kind == "id" and t.text == "for" and i + 5 < len(toks) and toks[i + 1].kind == "id" and toks[i + 2].text == "in" and P(toks[i + 3], "&") and toks[i + 4].text == "mut":
+            j = i + 5
+            while j < len(toks) and not P(toks[j], "{") and toks[j].text not in ("(", ";"): j += 1
+            if j < len(toks) and P(toks[j], "{") and j > i + 5:
+                V = toks[i + 1].text
+                X = " ".join(u.text for u in toks[i + 5:j])
+                bc = match_close(toks, j)
+                body = toks[j + 1:bc]
+                nb = []; k = 0
+                while k < len(body):
+                    if P(body[k], "*") and k + 1 < len(body) and body[k + 1].kind == "id" and body[k + 1].text == V and (k == 0 or not (body[k - 1].kind in ("id", "num") or body[k - 1].text in (")", "]"))):
+                        nb += toks_of("%s [ vx_m ]" % X, body[k].line); k += 2
+                    else:
+                        nb.append(body[k]); k += 1
+                ln = t.line
+                head = toks_of("for vx_m in vx_mi : 0 .. %s . len ( ) {" % X, ln)
+                toks[i:bc] = head + nb
+                log.append(("R26", ln, "for %s in &mut %s -> index loop" % (V, X)))
+                i += len(head); continue
         if t.kind == "id" and t.text == "for" and i + 4 < len(toks) and P(toks[i + 1], "&") and toks[i + 2].kind == "id" and toks[i + 3].text == "in" and toks[i + 4].kind == "id" and P(toks[i + 5], "{"):
             V, X = toks[i + 2].text, toks[i + 4].text
             ln = t.line
@@ -771,6 +804,27 @@ def r29_all_and_ref_for(toks, log):
             toks[i:i + 6] = new
             log.append(("R26", ln, "for &%s in %s -> index loop" % (V, X)))
             i += len(new); continue
+        i += 1
+    return toks
+
+def r30_mut_self(toks, log):
+    """R30: `fn f(mut self, ..) { BODY }`  ->  `fn f(self, ..) { let mut vx_self = self; BODY[self := vx_self] }`
+    (Verus has no `mut self` parameters; the by-value receiver is moved into a mutable local)"""
+    toks = list(toks)
+    i = 0
+    while i < len(toks) - 4:
+        if toks[i].kind == "id" and toks[i].text == "fn" and P(toks[i + 2], "(") and toks[i + 3].text == "mut" and toks[i + 4].text == "self":
+            ln = toks[i].line
+            del toks[i + 3]
+            pc = match_close(toks, i + 2)
+            j = pc
+            while not P(toks[j], "{"): j += 1
+            bc = match_close(toks, j)
+            for k in range(j + 1, bc):
+                if toks[k].kind == "id" and toks[k].text == "self":
+                    toks[k] = T("id", "vx_self", toks[k].line)
+            toks[j + 1:j + 1] = toks_of("let mut vx_self = self ;", toks[j].line)
+            log.append(("R30", ln, "mut self receiver -> local vx_self"))
         i += 1
     return toks
 
@@ -884,6 +938,7 @@ def apply_rewrites(toks, cfg, log):
     toks = r27_fold_max(toks, log)
     toks = r28_zip_map_collect(toks, log)
     toks = r29_all_and_ref_for(toks, log)
+    toks = r30_mut_self(toks, log)
     if cfg.get("unmodelled"):
         toks = r15_unmodelled(toks, log)
     toks = r26_for_pairs(toks, log)
